@@ -387,7 +387,7 @@ func (t *State) Play(blockid []byte) error {
 	return t.PlayAndRepost(blockid, false, true)
 }
 
-func (t *State) PlayForMiner(blockid []byte) error {
+func (t *State) PlayForMiner(blockid []byte) (retErr error) {
 	batch := t.NewBatch()
 	block, blockErr := t.sctx.Ledger.QueryBlock(blockid)
 	if blockErr != nil {
@@ -402,8 +402,8 @@ func (t *State) PlayForMiner(blockid []byte) error {
 	defer t.utxo.Mutex.Unlock() // lock guard
 	var err error
 	defer func() {
-		if err != nil {
-			t.clearBalanceCache()
+		if retErr != nil {
+			t.resetMemState()
 		}
 	}()
 	for _, tx := range block.Transactions {
@@ -450,7 +450,7 @@ func (t *State) PlayForMiner(blockid []byte) error {
 // 执行和发送区块
 // PlayAndRepost 执行一个新收到的block，要求block的pre_hash必须是当前vm的latest_block
 // 执行后会更新latestBlockid
-func (t *State) PlayAndRepost(blockid []byte, needRepost bool, isRootTx bool) error {
+func (t *State) PlayAndRepost(blockid []byte, needRepost bool, isRootTx bool) (retErr error) {
 	batch := t.ldb.NewBatch()
 	block, blockErr := t.sctx.Ledger.QueryBlock(blockid)
 	if blockErr != nil {
@@ -458,6 +458,11 @@ func (t *State) PlayAndRepost(blockid []byte, needRepost bool, isRootTx bool) er
 	}
 	t.utxo.Mutex.Lock()
 	defer t.utxo.Mutex.Unlock()
+	defer func() {
+		if retErr != nil {
+			t.resetMemState()
+		}
+	}()
 	// 下面开始处理unconfirmed的交易
 	unconfirmToConfirm, undoDone, err := t.processUnconfirmTxs(block, batch, needRepost)
 	if err != nil {
@@ -666,6 +671,7 @@ func (t *State) Walk(blockid []byte, ledgerPrune bool) error {
 	// utxoVM回滚需要回滚区块
 	err = t.procUndoBlkForWalk(undoBlocks, undoDone, ledgerPrune)
 	if err != nil {
+		t.resetMemState()
 		t.log.Warn("walk fail,because undo block fail", "err", err)
 		return fmt.Errorf("walk undo block fail")
 	}
@@ -674,6 +680,7 @@ func (t *State) Walk(blockid []byte, ledgerPrune bool) error {
 	// utxoVM执行需要执行区块
 	err = t.procTodoBlkForWalk(todoBlocks)
 	if err != nil {
+		t.resetMemState()
 		t.log.Warn("walk fail,because todo block fail", "err", err)
 		return fmt.Errorf("walk todo block fail")
 	}
@@ -835,6 +842,17 @@ func (t *State) ClearCache() {
 	t.clearBalanceCache()
 	t.xmodel.CleanCache()
 	t.log.Info("clear utxo cache")
+}
+
+// resetMemState drops every in-memory effect of a block operation whose batch was not written:
+// the caches, the total supply counter and the pending copy of the chain-governed parameters are
+// brought back to what is persisted
+func (t *State) resetMemState() {
+	t.ClearCache()
+	if err := t.utxo.ReloadUtxoTotal(); err != nil {
+		t.log.Warn("failed to reload utxo total", "err", err)
+	}
+	t.meta.ResetMetaTmp()
 }
 
 func (t *State) QueryBlock(blockid []byte) (kledger.BlockHandle, error) {
